@@ -17,7 +17,7 @@ META = {
     "exhaustive_within_bound": True,
     "bounds": {
         "quick": "2-name universes {a,b}, {bb.i,bb.o}, {a,bb.o}, {bb.i,zz.p}, {a,zz.}, {bb.o,bbx.i}, {bb.io,a} with bb(io;io), {a,c} with a pin-less box, {bb.i,cc.j} with two same-named box types (self-loops give fan-in/fan-out counts 0,1,2 = every threshold the rules use); registry in {none, bb(i;o)}; type in 14 supported + unsupported string + missing + a non-string value; 5 flag combinations forming a pairwise covering array (every pair of flags in all four value combinations; first = defaults)",
-        "thorough": "all 16 flag combinations on the 2-name universes + 3-name universe {a,b,c} with types restricted to {input, buf, and, bb_output, 0, unsupported}",
+        "thorough": "all 16 flag combinations on the plain, pin and pin-less-box universes, the pairwise covering array of 5 on the seven name-rule universes + 3-name universe {a,b,c} with types restricted to {input, buf, and, bb_output, 0, unsupported}",
     },
     "outside": ["graphs with more names (every rule needs at most a focus node, two predecessors or two successors)", "second sentence of the property (library outputs are lint-clean) is a concrete side assertion made by every E1 harness on every circuit the library returns; C20's evidence aggregates the count from the other evidence files"],
     "assumptions": ["SymDiGraph stand-in (conformance replay on every path)", "Must/May rule formulas below are the documented rule list; May additionally allows: a bb_input pin counted as unloaded when unloaded=True", "z3 sound"],
@@ -36,7 +36,8 @@ def all_cases(ctx):
     for un, U in UNIVERSES.items():
         for reg in (False, True):
             # the per-node rules are flag dependent: full flag menu on the plain and pin universes, two combinations on the name-rule universes
-            for fl in (flags if (un in ("plain", "pins") or not ctx.quick) else [flags[0], flags[1]]):
+            full = un in ("plain", "pins") or (un == "nopins" and not ctx.quick)
+            for fl in (flags if full else ([flags[0], flags[1]] if ctx.quick else FLAGS_QUICK)):
                 for k in [int(format(k, f"0{sb}b")[::-1], 2) for k in range(1 << sb)]:
                     cs.append(((un, reg, fl, k), (U, reg, fl, sb, k, None)))
     # error-count dimension: K concrete ill-formed nodes (constant '0' with a self-loop = exactly one error each) + one fully symbolic node
